@@ -47,3 +47,59 @@ func Harness_C04_merge() {
 		zz.Assert(orig == nil, "no original_sample_rate when the client sent none")
 	}
 }
+
+type verifStressRel struct {
+	MockStressReliever
+	rate uint
+	keep bool
+}
+
+func (s *verifStressRel) GetSampleRate(string) (uint, bool, string) { return s.rate, s.keep, "stress" }
+
+// C04 (stress path): ProcessSpanImmediately on (a) a trace first seen under stress: the stress rate;
+// (b) a trace already decided by the trace sampler at another rate: the rate recorded with that decision.
+func Harness_C04_C16_stress_rates() {
+	zz.MustCover("(*github.com/honeycombio/refinery/collect.InMemCollector).ProcessSpanImmediately")
+	cfg := &config.MockConfig{GetTracesConfigVal: config.TracesConfig{SendDelay: config.Duration(2e9), TraceTimeout: config.Duration(60e9), SendTicker: config.Duration(1e8)}}
+	c := verifNewCW(cfg, 10)
+	sr := &verifStressRel{rate: zz.NondetUint("stressRate"), keep: zz.NondetBool("stressKeep")}
+	zz.Assume(sr.rate >= 1)
+	zz.Assume(sr.rate < 1<<31)
+	c.i.StressRelief = sr
+	r1 := zz.NondetUint("samplerRate")
+	zz.Assume(r1 >= 1)
+	zz.Assume(r1 < 1<<31)
+	keep1 := zz.NondetBool("samplerKeep")
+	c.samp.rate["A"], c.samp.keep["A"] = r1, keep1
+	c.setNow(1000)
+	c.start()
+	// trace A decided by the regular sampler
+	zz.Assert(c.i.AddSpan(c.span("A", true, 1)) == nil, "span admitted")
+	c.barrier()
+	c.tickAt(1000 + 3e9)
+	zz.Assert(c.samp.calls["A"] == 1, "decided")
+	// stress relief on: another span of A, and the first span of B
+	clientA, clientB := verifRate("clientA"), verifRate("clientB")
+	spA, spB := c.span("A", false, clientA), c.span("B", false, clientB)
+	before := len(c.tx.events)
+	_, keptA := c.i.ProcessSpanImmediately(spA)
+	_, keptB := c.i.ProcessSpanImmediately(spB)
+	effA := zz.IteUint(clientA < 1, 1, clientA)
+	effB := zz.IteUint(clientB < 1, 1, clientB)
+	zz.Assert(keptA == keep1, "[C16,C01] a trace already decided keeps its decision under stress relief")
+	zz.Assert(keptB == sr.keep, "[C16] a trace first seen under stress follows the stress rule")
+	if keptA {
+		zz.Assert(spA.SampleRate == effA*r1, "[C04] span of an already-decided trace uses the rate recorded with that decision, not the stress rate")
+	}
+	if keptB {
+		zz.Assert(spB.SampleRate == effB*sr.rate, "[C04] span of a trace first seen under stress uses the stress-relief rate")
+	}
+	n := 0
+	if keptA {
+		n++
+	}
+	if keptB {
+		n++
+	}
+	zz.Assert(len(c.tx.events)-before == n, "[C16] exactly the kept spans are forwarded")
+}
